@@ -4,6 +4,9 @@
      finalize ft=<n>     → Mem.finalizeIndexesR
      lexn                → number of documents the lexical engine holds (`lexDocs.length`)
      lex                 → the engine's frame ids, sorted (`-` when empty)
+     obs / head          → `Core.obs` / `Core.obsHead` with the sketch ids sorted (the harness prints the
+                           real sketch track sorted; after the repaired `finalize_indexes` the track's
+                           insertion order need not be ascending)
    every other request goes to `Mv.Core.drvStep` unchanged. -/
 import MvModel.CoreDrv
 import MvModel.Bulk
@@ -20,7 +23,9 @@ def c40Step (m : Mem) (ws : List String) : Mem × String :=
     let r := m.finalizeIndexesR (getN kv "ft")
     (r.1.setWalSize (getN kv "ws" r.1.walSize), showOut r.2)
   | ["lexn"] => (m, toString m.lexDocs.length)
-  | ["lex"] => (m, showNats (m.lexDocs.mergeSort natLe))
+  | ["lex"] => (m, showNats (sortBy natLe m.lexDocs))
+  | ["obs"] => (m, obs { m with sketch := sortBy natLe m.sketch })
+  | ["head"] => (m, obsHead { m with sketch := sortBy natLe m.sketch })
   | _ => drvStep m ws
 
 def main : IO Unit := Mv.runDriver Mem.create c40Step
